@@ -9,7 +9,7 @@ func stub(name string) func() (string, error) {
 var (
 	genExpand    = genExpandReal
 	genAccepted  = genAcceptedReal
-	genWriteTgz  = stub("G8")
+	genWriteTgz  = genWriteTgzReal
 	genDropped   = genDroppedReal
 	genClock     = genClockReal
 	genTemplates = genTemplatesReal
